@@ -49,6 +49,9 @@ type CCase struct {
 	Pool    int      `json:"pool"`
 	Refresh bool     `json:"refresh,omitempty"` // file plugin with autorefresh + concurrent rewrites
 	Scripts [][]Send `json:"scripts"`           // one per goroutine
+	// Sleep: the chain starts with the sleep plugin and this argument (its documented use: in
+	// front of the lease plugins); every datagram is delayed, none is lost
+	Sleep string `json:"sleep,omitempty"`
 }
 
 // GenC draws a scenario
@@ -61,6 +64,9 @@ func GenC(t *rapid.T) CCase {
 		c.Pool = 2
 	}
 	c.Refresh = rapid.Bool().Draw(t, "refresh")
+	if rapid.IntRange(0, 2).Draw(t, "with-sleep") == 0 {
+		c.Sleep = rapid.SampledFrom([]string{"200us", "2ms", "10ms"}).Draw(t, "sleep")
+	}
 	g := rapid.IntRange(8, 32).Draw(t, "goroutines")
 	if core.Thorough() {
 		g = rapid.IntRange(8, 64).Draw(t, "goroutines-thorough")
@@ -171,6 +177,12 @@ func ExecC(c CCase) (res core.Result) {
 			a []string
 		}{{"server_id", []string{"10.10.10.1"}}, {"file", fileArgs(f4)}, {"range", []string{db, "10.10.10.100", end, "60s"}}, {"dns", []string{"8.8.8.8"}}, {"router", []string{"10.10.10.1"}}, {"netmask", []string{"255.255.255.0"}}, {"searchdomains", []string{"a4.example", "b4.example.org"}}, {"lease_time", []string{"3600s"}}}
 		h4 = append(h4, func(req, resp *dhcpv4.DHCPv4) (*dhcpv4.DHCPv4, bool) { runtime.Gosched(); return resp, false })
+		if c.Sleep != "" {
+			specs = append([]struct {
+				n string
+				a []string
+			}{{"sleep", []string{c.Sleep}}}, specs...)
+		}
 		for _, s := range specs {
 			h, err := plug.ByName(s.n).Setup4(s.a...)
 			if err != nil {
@@ -195,6 +207,12 @@ func ExecC(c CCase) (res core.Result) {
 			a []string
 		}{{"server_id", []string{"LL", "00:de:ad:be:ef:00"}}, {"file", fileArgs(f6)}, {"prefix", []string{fmt.Sprintf("2001:db8:0:1000::/%d", 64-bits), "64"}}, {"dns", []string{"2001:4860:4860::8888"}}, {"searchdomains", []string{"a6.example", "b6.example.net", "c6.example"}}}
 		h6 = append(h6, func(req, resp dhcpv6.DHCPv6) (dhcpv6.DHCPv6, bool) { runtime.Gosched(); return resp, false })
+		if c.Sleep != "" {
+			specs = append([]struct {
+				n string
+				a []string
+			}{{"sleep", []string{c.Sleep}}}, specs...)
+		}
 		for _, s := range specs {
 			h, err := plug.ByName(s.n).Setup6(s.a...)
 			if err != nil {
@@ -609,6 +627,9 @@ func ExecC(c CCase) (res core.Result) {
 	res.Classes = []string{"kind:" + c.Kind, fmt.Sprintf("refresh:%v", refresh)}
 	if refused4 || refused6 {
 		res.Classes = append(res.Classes, "exhausted")
+	}
+	if c.Sleep != "" {
+		res.Classes = append(res.Classes, "sleep-in-front")
 	}
 	core.For("C16").AddExtra("max_inflight_sum", maxInflight.Load())
 	return
